@@ -98,6 +98,17 @@ def main():
               "  defect, re-filed under C11, which reports it. The round still led to more shapes of generated groups",
               "  (q of 7..33 bits, cofactors of 1..20 bits so that p and q cross byte boundaries independently) and to",
               "  leading-NUL near-miss seeds/identities.",
+              "* round 5 (`*-r5A/B`, red team: the authors were additionally given a prose description of the kind of inputs",
+              "  a randomized harness generates - no file from /verif - and asked for changes such a harness would miss;",
+              "  recorded in each meta.json). Every one needed new input support and is caught now: C07-r5A (a bounded call",
+              "  log forgets `start` after 16 logged calls) -> histories of 18-70 calls and checkpoint-heavy histories;",
+              "  C07-r5B / C06-r5A (`bytearray` messages skip a guard / `is` on single bytes) -> buffer-typed messages;",
+              "  C08-r5A (restore looks the class up from the blob) -> application subclasses; C08-r5B (restore tail inside",
+              "  an `assert`) -> simulated processes started with `python -O`; C10-r5A (4096-byte cap on restore) and",
+              "  C02-r5A/B (identities over 1 kB pre-hashed; passwords capped at 4096 bytes) -> certificate-sized strings,",
+              "  (long string, its digest) pairs and strings sharing a 1-64 kB prefix; C10-r5B (fixed 48-byte password",
+              "  expansion) -> frozen custom groups with q of 257-521 bits; C06-r5B (blinding memo without the seeds,",
+              "  visible only after a restart) -> a restart variant in C06.",
               "* round-3 change C07-r3A (`_started` set only when start() succeeds, so a start() after a start() whose",
               "  entropy function raised returns the one and only message) was **not kept**: the statement bounds the",
               "  number of messages returned (at most one) and fixes the error only for calls after a message was",
